@@ -553,7 +553,13 @@ fn rand_history(o: &mut Out, r: &mut Rng, d: &GDict, probes: &dyn Fn(&mut Out), 
         match r.below(12) {
             0..=5 => {
                 let dl = r.below(4) as usize;
-                let a = avp(r, d, dl, 3);
+                let mut a = avp(r, d, dl, 3);
+                // a Time built through the API may carry a sub-second part: the wire has whole seconds, truncated
+                if let GV::Time(s, _) = a.v {
+                    if r.chance(1, 2) {
+                        a.v = GV::Time(s, *r.pick(&[1u32, 499_999_999, 500_000_000, 999_999_999]));
+                    }
+                }
                 a.ops_add(r, &mut ls);
                 m.avps.push(a);
             }
@@ -1763,6 +1769,11 @@ fn gen_c10(o: &mut Out, r: &mut Rng, tier: &str) {
                     o.line(&format!("lsn tls={} good={} reqs={} fault={} when={} nfaulty={}", tls, good, reqs, f, w, nf));
                 }
             }
+            // many faulty peers of one kind, one after the other: whatever a connection holds (a task, a permit, a
+            // slot in some table) must be given back on every exit path, or the listener runs dry
+            let many = if thorough { 200 } else { 48 };
+            o.case(&format!("listener many fault={} tls={}", f, tls));
+            o.line(&format!("lsn tls={} good=2 reqs=3 fault={} when=before nfaulty={}", tls, f, many));
         }
     }
 }
